@@ -421,6 +421,12 @@ def rule_lookup2(ctx: Ctx) -> RuleResult:
         if isinstance(n, ast.Call) and norm(n.func) in ("int", "float", "ast.literal_eval", "literal_eval", "json.loads", "eval"):
             problems.append(f"`{norm(n)[:40]}` turns a component of the path into another kind of key: the object key \"200\" is looked up "
                             f"as the number 200")
+    # the 'whole document' marker is the lookup "-" itself, not any lookup that contains a hyphen
+    for n in walk_no_nested(f.node):
+        if isinstance(n, ast.Compare) and len(n.ops) == 1 and any(isinstance(x, ast.Constant) and x.value == "-" for x in [n.left] + n.comparators) \
+                and not isinstance(n.ops[0], (ast.Eq, ast.NotEq)):
+            problems.append(f"`{norm(n)[:40]}` is not an equality test against the marker \"-\": a key such as `search-results` stops the walk and the "
+                            f"whole document is taken as the sample")
     steps = [n for n in walk_no_nested(f.node) if isinstance(n, ast.Subscript) and isinstance(n.ctx, ast.Load) and norm(n.value) == d]
     if not steps and not problems:
         raise AnalysisError("LOOKUP-2: dict_lookup no longer indexes its document")
@@ -857,4 +863,152 @@ def rule_regexval1(ctx: Ctx) -> RuleResult:
           "compiled in " + early[0][0].qualname if early else
           "the expressions reach the library as text: `--dkr 'id_(\\\\d+'` with samples that hold no non-empty nested object exits 0 and "
           "writes the output", (early[0][1].lineno if early else f.node.lineno))
+    return rr
+
+
+# ---------------------------------------------------------------------------------------------------------------
+def shared_default_arguments(tree: ast.AST) -> List[Tuple[ast.AST, str, str]]:
+    """(function, parameter, default) for parameters whose default is a mutable object built once, when the function is defined: a
+    call (`ConfigParser()`, `list()`, `defaultdict(list)`), a list / dict / set display or a comprehension.  Tuples, frozensets,
+    constants and names are fine; so are calls of the immutable builtins."""
+    IMMUTABLE_CALLS = {"tuple", "frozenset", "str", "int", "float", "bool", "bytes", "object", "re.compile", "compile", "Path", "Decimal",
+                       "datetime", "date", "time", "timedelta", "namedtuple", "field", "attr.ib", "Field", "TypeVar", "partial", "itemgetter"}
+    out = []
+    for fn in ast.walk(tree):
+        if not isinstance(fn, (ast.FunctionDef, ast.AsyncFunctionDef, ast.Lambda)):
+            continue
+        a = fn.args
+        pos = a.posonlyargs + a.args
+        pairs = list(zip(pos[len(pos) - len(a.defaults):], a.defaults)) + [(k, d) for k, d in zip(a.kwonlyargs, a.kw_defaults) if d is not None]
+        for prm, d in pairs:
+            mutable = isinstance(d, (ast.List, ast.Dict, ast.Set, ast.ListComp, ast.DictComp, ast.SetComp)) or (
+                isinstance(d, ast.Call) and norm(d.func) not in IMMUTABLE_CALLS and norm(d.func).split(".")[-1] not in IMMUTABLE_CALLS)
+            if not mutable:
+                continue
+            # harmless when the function only reads it: look for a mutation or a hand-over through the parameter's name
+            used = [n for n in ast.walk(fn) if isinstance(n, ast.Name) and n.id == prm.arg and isinstance(n.ctx, ast.Load)]
+            par = {c: p for p in ast.walk(fn) for c in ast.iter_child_nodes(p)}
+            touched = False
+            for u in used:
+                p_ = par.get(u)
+                if isinstance(p_, ast.Attribute) and isinstance(par.get(p_), ast.Call) and par[p_].func is p_:
+                    touched = True          # a method called on it (read_file, append, update, setdefault, ...)
+                if isinstance(p_, ast.Subscript) and isinstance(p_.ctx, (ast.Store, ast.Del)):
+                    touched = True
+                if isinstance(p_, (ast.Call, ast.Return, ast.Yield, ast.Assign, ast.keyword)) and not (isinstance(p_, ast.Call) and p_.func is u):
+                    touched = True          # handed on / stored / returned: somebody else can change it
+            if touched:
+                out.append((fn, prm.arg, norm(d)))
+    return out
+
+
+def rule_defarg1(ctx: Ctx) -> RuleResult:
+    rr = RuleResult("DEFARG-1", "no mutable object is created once as a parameter default and then used by every call", floor=1)
+    ctl = ast.parse("def load(path, config=ConfigParser()):\n    config.read(path)\n    return dict(config)\n"
+                    "def ok(path, names=(), sep=str('-'), table=None):\n    return [n for n in names]\n"
+                    "def acc(x, out=[]):\n    out.append(x)\n    return out\n")
+    got = shared_default_arguments(ctl)
+    if sorted(g[1] for g in got) != ["config", "out"]:
+        raise AnalysisError(f"DEFARG-1: positive control failed ({[(g[1], g[2]) for g in got]})")
+    st = ("a default value is evaluated once, when the function is defined: a parser, list or dict created there is one object for "
+          "every call in the process - what one run (or one thread) puts into it, the next one finds")
+    n = 0
+    for m in ctx.prog.pkg_modules():
+        n += 1
+        for fn, prm, d in shared_default_arguments(m.tree):
+            rr.instances += 1
+            fi = next((f for f in m.all_funcs if f.node is fn), None)
+            rr.ob(m.relpath, fi.qualname if fi else "<lambda>", f"{prm}={d}"[:80], st, VIOLATED,
+                  f"parameter `{prm}` defaults to `{d}`, built once and then changed or handed on by the function: every call that does not "
+                  f"pass it shares one object (sections of an earlier .ini file, items of an earlier call, ...)", getattr(fn, "lineno", 0))
+    rr.instances += 1
+    rr.ob("json_to_models", "<package>", f"{n} modules", st, DISCHARGED, "no shared mutable default (positive control matched)", 1)
+    return rr
+
+
+# ---------------------------------------------------------------------------------------------------------------
+def stale_loop_values(tree: ast.AST) -> List[Tuple[ast.AST, str, ast.AST]]:
+    """(loop, variable, conditional assignment): a variable that gets a value computed from the current item in ONE branch of the loop
+    body, has its default only from an assignment in front of the loop, and is read in the body outside that branch: in an iteration
+    that does not take the branch it still holds the value of an earlier item."""
+    out = []
+    for fn in ast.walk(tree):
+        if not isinstance(fn, (ast.FunctionDef, ast.AsyncFunctionDef)):
+            continue
+        par = {c: p for p in ast.walk(fn) for c in ast.iter_child_nodes(p)}
+        for lp in ast.walk(fn):
+            if not isinstance(lp, ast.For):
+                continue
+            item_names = {x.id for x in ast.walk(lp.target) if isinstance(x, ast.Name)}
+            # names derived from the item inside the body count as per-item data too
+            derived = set(item_names)
+            for _ in range(3):
+                for st in ast.walk(lp):
+                    if isinstance(st, ast.Assign) and any(isinstance(x, ast.Name) and x.id in derived for x in ast.walk(st.value)):
+                        derived |= {x.id for t in st.targets for x in ast.walk(t) if isinstance(x, ast.Name)}
+            for st in lp.body:
+                if not isinstance(st, ast.If):
+                    continue
+                for branch, other in ((st.body, st.orelse), (st.orelse, st.body)):
+                    for a in branch:
+                        if not isinstance(a, (ast.Assign, ast.AnnAssign)) or a.value is None:
+                            continue
+                        tgts = [x.id for t in (a.targets if isinstance(a, ast.Assign) else [a.target]) for x in ast.walk(t)
+                                if isinstance(x, ast.Name) and isinstance(x.ctx, ast.Store)]
+                        for v in tgts:
+                            if v in item_names:
+                                continue
+                            rhs_names = {x.id for x in ast.walk(a.value) if isinstance(x, ast.Name)}
+                            if v in rhs_names or not (rhs_names & derived):
+                                continue                     # an accumulator, or not per-item data
+                            if any(isinstance(y, ast.Name) and y.id == v for y in ast.walk(st.test)):
+                                continue                     # the branch is taken depending on the variable itself: a running minimum / maximum
+                            # assigned on the other branch as well, or unconditionally earlier in the body: fine
+                            def assigns(stmts):
+                                return any(isinstance(y, ast.Name) and y.id == v and isinstance(y.ctx, ast.Store) for s_ in stmts for y in ast.walk(s_))
+                            if assigns(other) or assigns(lp.body[:lp.body.index(st)]):
+                                continue
+                            # the default comes from in front of the loop only
+                            blk = None
+                            p_ = par.get(lp)
+                            for fld in ("body", "orelse", "finalbody"):
+                                b_ = getattr(p_, fld, None)
+                                if isinstance(b_, list) and lp in b_:
+                                    blk = b_
+                            before = blk[:blk.index(lp)] if blk else []
+                            if not any(isinstance(s_, (ast.Assign, ast.AnnAssign)) and s_.value is not None and any(
+                                    isinstance(y, ast.Name) and y.id == v and isinstance(y.ctx, ast.Store) for y in ast.walk(s_)) for s_ in before):
+                                continue
+                            # read in the body outside the branch
+                            inside = {id(y) for s_ in branch for y in ast.walk(s_)}
+                            reads = [y for s_ in lp.body for y in ast.walk(s_) if isinstance(y, ast.Name) and y.id == v
+                                     and isinstance(y.ctx, ast.Load) and id(y) not in inside]
+                            if reads:
+                                out.append((lp, v, a))
+    return out
+
+
+def rule_stale1(ctx: Ctx) -> RuleResult:
+    rr = RuleResult("STALE-1", "a per-item value never survives into the next iteration", floor=1)
+    ctl = ast.parse("def f(items):\n    args = ()\n    out = []\n    for item in items:\n        if '_' in item:\n            name, *args = item.split('_')\n"
+                    "        else:\n            name = item\n        out.append((name, args))\n    return out\n"
+                    "def g(items):\n    found = False\n    total = 0\n    for item in items:\n        if item.ok:\n            found = True\n"
+                    "            total = total + item.n\n        use(found, total)\n")
+    got = stale_loop_values(ctl)
+    if [g[1] for g in got] != ["args"]:
+        raise AnalysisError(f"STALE-1: positive control failed ({[g[1] for g in got]})")
+    st = ("a variable that takes a value computed from the current item in one branch of a loop is set in the other branch too (or at the "
+          "top of every iteration): a default given once in front of the loop is overwritten by the first item that takes the branch, and "
+          "every later item that does not take it sees that item's value")
+    n = 0
+    for m in ctx.prog.pkg_modules():
+        n += 1
+        for lp, v, a in stale_loop_values(m.tree):
+            rr.instances += 1
+            fi = next((f for f in m.all_funcs if any(lp is y for y in ast.walk(f.node))), None)
+            rr.ob(m.relpath, fi.qualname if fi else "<module>", norm(a)[:70], st, VIOLATED,
+                  f"`{v}` is set from the current item only under a condition (line {a.lineno}); its default is assigned once before the loop "
+                  f"(line {lp.lineno}): an item that does not take the branch is processed with the `{v}` of an earlier item", a.lineno)
+    rr.instances += 1
+    rr.ob("json_to_models", "<package>", f"{n} modules", st, DISCHARGED, "no per-item value carried over (positive control matched)", 1)
     return rr
